@@ -4,7 +4,7 @@ import math
 from .core import dhex
 from .runner import Case
 
-GROUP = dict(name='rand', sources=['h_rand.cpp'], repo_sources=['util/BoxMuller.C', 'util/random.C', 'util/Pauli.C'], driver='rand', libs=('-ldl',))
+GROUP = dict(name='rand', sources=['h_rand.cpp'], repo_sources=['util/BoxMuller.C', 'util/random.C', 'util/Pauli.C'], driver='rand', libs=('-ldl',), thread_mode=True)
 
 RAND_MAX = 2147483647
 
